@@ -7,3 +7,6 @@ export CARGO_TARGET_DIR=/verif/build/harness-target
 export RUSTFLAGS="--cfg futures_intrusive_verif -A warnings"
 cp /repo/Cargo.lock Cargo.lock 2>/dev/null || true
 out=$(cargo build --offline 2>&1) || { echo "$out" | grep -v conda | tail -40; echo "build_harness: cargo build failed"; exit 1; }
+if [ "${1:-}" = "release" ]; then
+  out=$(cargo build --offline --release 2>&1) || { echo "$out" | grep -v conda | tail -40; echo "build_harness: cargo build --release failed"; exit 1; }
+fi
